@@ -1,6 +1,26 @@
 import Rtcm.Model.Message
+import Rtcm.Proofs.InterpLen
+import Rtcm.Gen.Messages
 /-!
 # C12  A builder's output depends only on the message, not on what it built before
+
+Subject: `Rtcm.Message.Builder.build` (Model/Message.lean), the model of
+`MessageBuilder::build_message` / `clear_data` (src/msg/message.rs).
+
+* `Inv b`: the buffer has 1029 bytes, starts with the sync byte `0xd3`, and is the fresh buffer as
+  long as no build has run. `inv_new`: a new builder satisfies it.
+* `clear_eq_fresh`, `build_eq_fresh`: one step — from any state satisfying `Inv`, the wipe restores
+  the fresh buffer, so the result of a build (frame bytes, error or panic) is a fresh builder's.
+* `inv_build`: `Inv` is preserved by every build, for every message and every outcome (frame;
+  `EncodingNotSupported`; a field error or a panic that leaves a partially written body). Length:
+  `Bits.put_length` and `Interp.encFrag_length` (Proofs/InterpLen.lean: every encoder of the
+  interpreter preserves the buffer length, unconditionally). Sync byte: only indices ≥ 1 are written.
+* `build_history_independent` (**the property**): after any finite history of builds the result of
+  building `m` equals the result of a fresh builder. `buildSeq_last`, `buildSeq_eq_map`: the same
+  for the sequence runner `buildSeq`.
+
+All theorems hold for every build profile `cfg`, every message table `tbl` and every GLONASS
+signal table `glo`; nothing is assumed about the messages (token streams may be ill-formed).
 -/
 namespace Rtcm.C12
 open Rtcm.Message Rtcm.Schema
@@ -38,5 +58,156 @@ theorem build_eq_fresh (cfg : Cfg) (tbl : List MsgRow) (glo : SigTable) (b : Bui
   unfold Builder.build
   simp only [hdata]
   simp only [Builder.new, Bool.false_eq_true, if_false]
+
+/-! ### The invariant is preserved by every build, whatever its outcome -/
+
+/-- length and sync byte of the builder's buffer -/
+def Good (d : List Nat) : Prop := d.length = 1029 ∧ d.head? = some 0xd3
+
+theorem good_fresh : Good freshData := inv_new.1 |> fun h => ⟨h, inv_new.2.1⟩
+
+theorem inv_of_good {d : List Nat} (h : Good d) : Inv { data := d, hasRun := true } :=
+  ⟨h.1, h.2, fun hr => by simp at hr⟩
+
+/-- the buffer `build_message` starts from (after the conditional wipe) is the fresh buffer -/
+theorem start_eq_fresh (b : Builder) (h : Inv b) :
+    (if b.hasRun then clearData b.data else b.data) = freshData := by
+  cases hr : b.hasRun with
+  | true => simp [clear_eq_fresh b h]
+  | false => simp [h.2.2 hr]
+
+/-- writing a 1023-byte window back between the 3 header bytes and the 3 trailing bytes -/
+theorem good_put {data w : List Nat} (h : Good data) (hw : w.length = 1023) :
+    Good (data.take 3 ++ w ++ data.drop 1026) := by
+  obtain ⟨hl, hh⟩ := h
+  constructor
+  · simp only [List.length_append, List.length_take, List.length_drop, hl, hw]
+    omega
+  · cases data with
+    | nil => simp at hl
+    | cons x xs => simpa using hh
+
+/-- a write at an index ≥ 1 keeps length and sync byte -/
+theorem good_set {d : List Nat} (h : Good d) (n x : Nat) : Good (d.set (n + 1) x) := by
+  obtain ⟨hl, hh⟩ := h
+  constructor
+  · simpa using hl
+  · cases d with
+    | nil => simp at hl
+    | cons y ys => simpa using hh
+
+theorem window_length {data : List Nat} (h : Good data) : ((data.drop 3).take 1023).length = 1023 := by
+  simp only [List.length_take, List.length_drop, h.1]
+  omega
+
+/-- (c) `Inv` is preserved by `build_message` for every message and every outcome: a frame, an
+error (`EncodingNotSupported`, a field error with a partially written body), or a panic. -/
+theorem inv_build (cfg : Cfg) (tbl : List MsgRow) (glo : SigTable) (b : Builder) (h : Inv b) (m : Msg) :
+    Inv (b.build cfg tbl glo m).1 := by
+  have hg : Good (if b.hasRun then clearData b.data else b.data) := by
+    rw [start_eq_fresh b h]; exact good_fresh
+  unfold Builder.build
+  simp only []
+  generalize (if b.hasRun then clearData b.data else b.data) = data at hg ⊢
+  have hwin := window_length hg
+  split
+  · split
+    · next w1 o1 hp =>
+      have hw1 : w1.length = 1023 := by rw [Bits.put_length hp, hwin]
+      split
+      · next row hrow =>
+        split
+        · next c rest henc =>
+          have hc : c.data.length = 1023 := by
+            rw [Interp.encFrag_length cfg glo _ _ _ _ _ henc]; exact hw1
+          split
+          · exact inv_of_good (good_put hg hc)
+          · apply inv_of_good
+            have e3 : ∀ k, k + 3 = (k + 2) + 1 := fun k => by omega
+            have e4 : ∀ k, k + 4 = (k + 3) + 1 := fun k => by omega
+            have e5 : ∀ k, k + 5 = (k + 4) + 1 := fun k => by omega
+            rw [e3, e4, e5]
+            exact good_set (good_set (good_set (good_set (good_set (good_put hg hc) 0 _) 1 _) _ _) _ _) _ _
+        · exact inv_of_good (good_put hg hw1)
+        · exact inv_of_good (good_put hg hw1)
+      · exact inv_of_good hg
+    · exact inv_of_good hg
+    · exact inv_of_good hg
+  · exact inv_of_good hg
+
+theorem inv_foldl (cfg : Cfg) (tbl : List MsgRow) (glo : SigTable) :
+    ∀ (hist : List Msg) (b : Builder), Inv b → Inv (hist.foldl (fun b x => (b.build cfg tbl glo x).1) b) := by
+  intro hist
+  induction hist with
+  | nil => intro b h; exact h
+  | cons x xs ih => intro b h; exact ih _ (inv_build cfg tbl glo b h x)
+
+/-- every reachable builder state satisfies the invariant -/
+theorem inv_reachable (cfg : Cfg) (tbl : List MsgRow) (glo : SigTable) (hist : List Msg) :
+    Inv (hist.foldl (fun b x => (b.build cfg tbl glo x).1) Builder.new) :=
+  inv_foldl cfg tbl glo hist _ inv_new
+
+/-- (d) **C12**: after any finite history of builds (successful, failing or panicking ones alike)
+the result of building `m` (the frame bytes, or the error) is the result a fresh builder gives. -/
+theorem build_history_independent (cfg : Cfg) (tbl : List MsgRow) (glo : SigTable) (hist : List Msg) (m : Msg) :
+    ((hist.foldl (fun b x => (b.build cfg tbl glo x).1) Builder.new).build cfg tbl glo m).2
+      = (Builder.new.build cfg tbl glo m).2 :=
+  build_eq_fresh cfg tbl glo _ (inv_reachable cfg tbl glo hist) m
+
+theorem buildSeq_append (cfg : Cfg) (tbl : List MsgRow) (glo : SigTable) :
+    ∀ (hist : List Msg) (b : Builder) (m : Msg),
+      buildSeq cfg tbl glo b (hist ++ [m])
+        = buildSeq cfg tbl glo b hist
+          ++ [((hist.foldl (fun b x => (b.build cfg tbl glo x).1) b).build cfg tbl glo m).2] := by
+  intro hist
+  induction hist with
+  | nil => intro b m; rfl
+  | cons x xs ih =>
+    intro b m
+    simp only [List.cons_append, buildSeq, List.foldl_cons, ih]
+
+/-- the same for the sequence runner: the last result of a run is what a fresh builder returns
+for the last message -/
+theorem buildSeq_last (cfg : Cfg) (tbl : List MsgRow) (glo : SigTable) (hist : List Msg) (m : Msg) :
+    (buildSeq cfg tbl glo Builder.new (hist ++ [m])).getLast?
+      = some (Builder.new.build cfg tbl glo m).2 := by
+  rw [buildSeq_append, List.getLast?_append, build_history_independent]
+  rfl
+
+/-- every result of a run is what a fresh builder returns for that message -/
+theorem buildSeq_eq_map (cfg : Cfg) (tbl : List MsgRow) (glo : SigTable) :
+    ∀ (ms : List Msg) (b : Builder), Inv b →
+      buildSeq cfg tbl glo b ms = ms.map fun m => (Builder.new.build cfg tbl glo m).2 := by
+  intro ms
+  induction ms with
+  | nil => intro b _; rfl
+  | cons m ms ih =>
+    intro b h
+    simp only [buildSeq, List.map_cons, build_eq_fresh cfg tbl glo b h m,
+      ih _ (inv_build cfg tbl glo b h m)]
+
+/-! ### States reached after failing builds (kernel evaluation on the generated message table) -/
+
+/-- a message without wire form: `EncodingNotSupported`, the buffer stays fresh -/
+example (cfg : Cfg) (tbl : List MsgRow) (glo : SigTable) : Inv (Builder.new.build cfg tbl glo .corrupt).1 := by
+  show Inv { data := freshData, hasRun := true }
+  refine ⟨?_, ?_, ?_⟩ <;> decide +kernel
+
+/-- 1230 with a signal the bias list does not know: `Err(InvalidSignalId)` after the station id has
+been written; the builder is left with a partially written body (≠ fresh) and satisfies `Inv` -/
+example (cfg : Cfg) :
+    let r := Builder.new.build cfg Gen.messageTable Gen.sigTable_glo
+      (.typed 1230 [.int 7, .int 1, .count 1, .sig 9 9, .flt 0])
+    r.2.isOk = false ∧ r.2.isPanic = false ∧ r.1.data ≠ freshData ∧ Inv r.1 := by
+  cases cfg with
+  | mk ck => cases ck <;> (refine ⟨?_, ?_, ?_, ?_, ?_, ?_⟩ <;> decide +kernel)
+
+/-- the next build from that state gives the frame a fresh builder gives (instance of the theorem) -/
+example (cfg : Cfg) (m : Msg) :
+    let b := (Builder.new.build cfg Gen.messageTable Gen.sigTable_glo
+      (.typed 1230 [.int 7, .int 1, .count 1, .sig 9 9, .flt 0])).1
+    (b.build cfg Gen.messageTable Gen.sigTable_glo m).2
+      = (Builder.new.build cfg Gen.messageTable Gen.sigTable_glo m).2 :=
+  build_history_independent cfg Gen.messageTable Gen.sigTable_glo [_] m
 
 end Rtcm.C12
